@@ -125,6 +125,7 @@ def runCase (hdr : List String) (body : List (List String)) : List String := Id.
     | some (Kind.wait _) => lines := lines.push s!"waiter w{i} released={s.observed i}"
     | _ => pure ()
   if tyName == "counted" then lines := lines.push "counted ctor-dtor=0"
+  if tyName == "thrower" then lines := lines.push "thrower ctor-dtor=0"
   return (lines.toList ++ ["end"])
 
 partial def loop (lines : Array String) (i : Nat) (hdr : List String) (body : List (List String)) : IO Unit := do
